@@ -3,6 +3,7 @@ import os
 
 import common as C
 import validout
+import c1113x
 
 PROP = "C11"
 NAME = "c11"
@@ -13,7 +14,7 @@ def build(ctx):
     ctx.log("translate", out)
     if not ok:
         ctx.diag.append("translator failed: " + out[-300:])
-    C.prove(ctx, ["Props/C11.v", "Props/C11Valid.v"], ["Oblig/C11Obl.v", "Oblig/ValidSegObl.v"])
+    C.prove(ctx, ["Props/C11.v", "Props/C11Valid.v", "Props/C11General.v"], ["Oblig/C11Obl.v", "Oblig/ValidSegObl.v", "Oblig/C11GenObl.v"])
     ok, out = C.build_harness()
     ctx.log("go build", out)
     if not ok:
@@ -27,6 +28,7 @@ def build(ctx):
     ctx.log("ocaml", out[-3000:])
     if not ok:
         ctx.diag.append("extracted model does not build: " + out[-600:])
+    c1113x.build(ctx, "seg")
     return True
 
 
@@ -49,7 +51,7 @@ def search(ctx, factor):
     oracle(ctx, ctx.scale(8000, 150000) * factor, "search")
     found = ctx.fails[before:]
     del ctx.fails[before:]
-    return found
+    return found + c1113x.search(ctx, "seg", factor)
 
 
 def run(ctx):
@@ -74,6 +76,7 @@ def run(ctx):
     else:
         ctx.diag.append("correspondence could not run: " + out[-300:])
     validout.run(ctx, "segment")
+    ctx.add_summary(c1113x.run(ctx, "seg"), "C11 general (gen files)")
     summ = oracle(ctx, ctx.scale(8000, 150000))
     ctx.add_summary(summ, "File.SegmentFile oracle")
     if ctx.tier == "thorough":
@@ -81,6 +84,8 @@ def run(ctx):
 
 
 def replay(path):
+    if c1113x.is_case(path):
+        return c1113x.replay(path)
     ok, out = C.build_harness()
     if not ok:
         print(out[-2000:])
